@@ -32,6 +32,10 @@
                    of the product whose table is being read - no termination on a dependency cycle, and
                    the dependencies of another version of the same product are not followed.
 
+     keep = true   a directory in which a declaration that remains is installed (or which holds such a directory) is
+                   not deleted (fix C14-remove-keeps-shared-directory); false = the tree before: rmtree whatever else
+                   lives there.
+
    Executable definitions only.  Not modelled: interactive mode, noaction, a userInfo handed in by
    the caller, products that are set up in the environment (undeclare then wants force). *)
 From Eupsv Require Import Base.Base Model.Graph Model.Db.
@@ -82,18 +86,23 @@ Definition kept_deps (skip : bool) (w : world) (p : node) : list node :=
   let ds := match node_table w p with Some es => map own_target es | None => [] end in
   if skip then filter (is_declared w) ds else ds.
 
+Definition is_top (top : option (str * str)) (u : str * str) : bool :=
+  match top with Some t => user_eqb u t | None => false end.
+
 Section CollectLoop.
-  Variables (once chk : bool) (idx : list ((str * str) * list entry)) (c : rconf) (top : str * str).
+  Variables (once chk : bool) (idx : list ((str * str) * list entry)) (c : rconf) (top : option (str * str)).
   (* the recursive call _remove(name, version, recursive, ..., seen) *)
   Variable rec_call : list node -> str -> option str -> bool -> res (list node * list node).
 
-  (* the in-use check of one product: any user other than the product named on the command line *)
+  (* the in-use check of one product: any user other than the product named on the command line; with
+     top = None (topProduct = topVersion = None: the product named is also declared in another stack or for
+     a fall-back flavor, and that declaration stays) nobody is set aside *)
   Definition check_one (d : node) : res unit :=
     if chk then
       match users idx (nname d) (nver d) with
       | Err e => Err e
       | Ok us =>
-          if existsb (fun u => negb (user_eqb (cuser u) top)) us && negb (rc_force c)
+          if existsb (fun u => negb (is_top top (cuser u))) us && negb (rc_force c)
           then Err Refused else Ok tt
       end
     else Ok tt.
@@ -126,7 +135,7 @@ End CollectLoop.
 
 (* _remove; python's recursion limit is the fuel (RecursionError = Err OutOfFuel) *)
 Fixpoint collect (skip once chk : bool) (w : world) (idx : list ((str * str) * list entry)) (c : rconf)
-         (top : str * str) (fuel : nat) (seen : list node) (n : str) (ov : option str) (recursive : bool)
+         (top : option (str * str)) (fuel : nat) (seen : list node) (n : str) (ov : option str) (recursive : bool)
   : res (list node * list node) :=
   match fuel with
   | 0 => Err OutOfFuel
@@ -165,9 +174,20 @@ Definition odir_eqb (a b : option str) : bool :=
 
 Definition mem_odir (d : option str) (l : list (option str)) : bool := existsb (odir_eqb d) l.
 
+(* some declaration that is (still) there, in a stack of the path, for the running flavor or a fall-back
+   flavor (Eups._findDeclarations()), is installed in dir or inside it *)
+Definition in_use (c : rconf) (a : adb) (dir : str) : bool :=
+  existsb (fun e : dkey * vrec =>
+    let '(s, n, v, f) := fst e in
+    mem_str s (apath a) && mem_str f (fallbacks (rc_flavor c)) &&
+    match a_decl a s n v f with Some r => negb (placeholder (fst r)) && under dir (fst r) | None => false end) (adecls a).
+
 (* what remove() does about the directory of one product: nothing when that directory has
-   already gone (removedDirs), rmtree when it is a real file name, and it is remembered *)
-Definition dir_step (c : rconf) (a0 : adb) (p : node) (removed : list (option str)) (fs : list str)
+   already gone (removedDirs); nothing either, and nothing remembered, when a declaration that remains in the
+   database a1 (as it is after the undeclare) is installed in it (keep = true: fix
+   C14-remove-keeps-shared-directory; false = the tree before it); else rmtree when it is a real file name, and it
+   is remembered *)
+Definition dir_step (keep : bool) (c : rconf) (a0 a1 : adb) (p : node) (removed : list (option str)) (fs : list str)
   : res (list (option str) * list str) :=
   let d := product_dir c a0 p in
   if mem_odir d removed then Ok (removed, fs)
@@ -175,13 +195,14 @@ Definition dir_step (c : rconf) (a0 : adb) (p : node) (removed : list (option st
        | None => Ok (d :: removed, fs)
        | Some dir =>
            if placeholder dir then Ok (d :: removed, fs)
+           else if keep && in_use c a1 dir then Ok (removed, fs)
            else if mem_str dir fs then Ok (d :: removed, rmtree dir fs)
            else Err Crash                               (* rmtree: OSError -> RuntimeError *)
        end.
 
 (* the loop of Eups.remove; the state travels with the outcome because an exception leaves
    behind whatever was done before it *)
-Fixpoint destroy (c : rconf) (a0 : adb) (ps : list node) (removed : list (option str)) (st : rstate)
+Fixpoint destroy (keep : bool) (c : rconf) (a0 : adb) (ps : list node) (removed : list (option str)) (st : rstate)
   : res unit * rstate :=
   match ps with
   | [] => (Ok tt, st)
@@ -189,25 +210,25 @@ Fixpoint destroy (c : rconf) (a0 : adb) (ps : list node) (removed : list (option
       match undeclare c (rdb st) (nname p) (nver p) with
       | Err e => (Err e, st)
       | Ok a' =>
-          match dir_step c a0 p removed (rfs st) with
+          match dir_step keep c a0 a' p removed (rfs st) with
           | Err e => (Err e, mkR a' (rfs st))
-          | Ok (removed', fs') => destroy c a0 r removed' (mkR a' fs')
+          | Ok (removed', fs') => destroy keep c a0 r removed' (mkR a' fs')
           end
       end
   end.
 
 (* Eups.remove(name, version, recursive, checkRecursive) *)
-Definition remove (skip once : bool) (fuel : nat) (w : world) (c : rconf) (st : rstate)
+Definition remove (skip once keep : bool) (fuel : nat) (w : world) (c : rconf) (st : rstate)
            (n v : str) (recursive chk : bool) : res unit * rstate :=
   match (if chk then uses_index fuel w else Ok []) with
   | Err e => (Err e, st)
   | Ok idx =>
-      match collect skip once chk w idx c (n, v) fuel [] n (Some v) recursive with
+      match collect skip once chk w idx c (Some (n, v)) fuel [] n (Some v) recursive with
       | Err e => (Err e, st)
-      | Ok (l, _) => destroy c (rdb st) (uniq_nodes l) [] st
+      | Ok (l, _) => destroy keep c (rdb st) (uniq_nodes l) [] st
       end
   end.
 
-(* the code with both fixes, and the pinned tree *)
-Definition remove_fixed := remove true true.
-Definition remove_pinned := remove false false.
+(* the code with the fixes, and the pinned tree *)
+Definition remove_fixed := remove true true true.
+Definition remove_pinned := remove false false false.
